@@ -204,6 +204,21 @@ class Server:
         if k == "set_store":
             self.set_store(cmd["store"])
             return ["ok", None]
+        if k == "reload":
+            # the files of the source tree are rewritten under the running interpreter and the modules reloaded
+            # (importlib.reload), deepest imports first
+            import time as _t
+
+            for rel, text in cmd["files"].items():
+                pth = os.path.join(cmd["srcdir"], rel)
+                with open(pth, "w") as f:
+                    f.write(text)
+                st = os.stat(pth)
+                os.utime(pth, (st.st_atime, st.st_mtime + 5))      # (coarse clocks: make the change visible)
+            importlib.invalidate_caches()
+            for m in cmd["modules"]:
+                importlib.reload(sys.modules[m])
+            return ["ok", None]
         if k == "chdir":
             os.chdir(cmd["dir"])
             return ["ok", None]
